@@ -39,7 +39,9 @@ type C19Case struct {
 var c19Files = []string{"a.toml", "device.toml", "notes.txt", "a.toml.bak", "a.toml~", "mytoml", "x.tom", "toml", "atoml", "README",
 	".pad.toml", "._pad.toml", ".toml", "my pad.toml", "x.y.toml", "пульт.toml", "Ger\xe4t.toml", ".toml.swp", "a.toml.toml",
 	// configurations are loaded from sub-directories too (the loader walks the whole tree): a file there is a file in the directory
-	"mine/nested.toml", "mine/deeper/still.toml", "mine/notes.txt"}
+	"mine/nested.toml", "mine/deeper/still.toml", "mine/notes.txt",
+	// ... whatever the sub-directory is called (the loader skips none): hidden, with a blank, not UTF-8, looking like a file
+	".mine/hidden.toml", ".config/pads/deep.toml", "old stuff/b.toml", "fr\xfcher/c.toml", "backup.toml/d.toml", ".mine/notes.txt"}
 
 func c19IsTOML(name string) bool { return strings.HasSuffix(name, ".toml") }
 
